@@ -13,6 +13,7 @@ RULE = ('file names over printable ASCII without backslash and slash: every sing
         'position, all pairs of special characters (thorough) or a seeded sample of pairs (quick), plus random names; a name is '
         'non-trivial when it contains a character outside [A-Za-z0-9_.]; distinct by exact text')
 TRUSTED = ('R model Make/MakeNames.v (rule-header word reading) validated against /usr/bin/make on this run',
+           'R model Make/MakeHeader.v (splitting of a whole rule header, patsubst %/.dir,%) validated against /usr/bin/make on this run',
            'the representable set is established at run time with a hand-written reference escaping (reference_escape) run by the real make',
            'Ninja reader model is trusted (no ninja binary)')
 
